@@ -146,18 +146,24 @@ pub async fn run(args: &ShardArgs, rep: &mut Report) {
 		(".git/x", Source::Default),
 	];
 
-	for set in 0..64u32 {
+	// second pass: the same project given through --project-origin while watchexec is started in a sub-directory that
+	// has no VCS marker of its own (only the flag-removes-exactly-its-sources part, without explicit options)
+	for (cwd_variant, set) in (0..64u32).map(|s| (0, s)).chain((0..64u32).map(|s| (1, s))) {
+		std::env::set_current_dir(if cwd_variant == 0 { fx.proj.clone() } else { fx.proj.join("sub") }).unwrap();
 		let flags: Vec<&str> = FLAGS.iter().enumerate().filter(|(i, _)| set & (1 << i) != 0).map(|(_, f)| *f).collect();
 		for (ename, eargs, probes) in &explicit {
+			if cwd_variant == 1 && *ename != "none" {
+				continue;
+			}
 			let mut argv: Vec<OsString> = vec!["watchexec".into()];
 			argv.extend(flags.iter().map(|f| OsString::from(*f)));
 			argv.extend(eargs.iter().cloned());
 			argv.extend(["--project-origin".into(), fx.proj.clone().into(), "-w".into(), fx.proj.clone().into(), "--".into(), "true".into()]);
 			rep.eval();
 			let mut h = Fnv::default();
-			h.u64(u64::from(set)).str(ename);
+			h.u64(u64::from(set)).u64(cwd_variant).str(ename);
 			rep.nontrivial(h.finish());
-			let wit = |extra: Value| json!({"argv": argv.iter().map(|a| a.to_string_lossy().to_string()).collect::<Vec<_>>(), "detail": extra});
+			let wit = |extra: Value| json!({"argv": argv.iter().map(|a| a.to_string_lossy().to_string()).collect::<Vec<_>>(), "cwd": if cwd_variant == 0 { "<project>" } else { "<project>/sub" }, "detail": extra});
 			let parsed = match watchexec_cli::verif::args_from(argv.clone()).await {
 				Ok(a) => a,
 				Err(e) => {
